@@ -58,7 +58,7 @@ func (e *Exec) ascend(fr *Frame, st *BState, x *ssa.Call, args []SV) SV {
 	for k, h := range st.heap {
 		for pre := range keys {
 			if strings.HasPrefix(k, pre) {
-				st.heap[k] = e.fresh("ascend."+k, h.Sort)
+				st.heap[k] = e.havocHeapKey(k, h, "ascend.")
 				break
 			}
 		}
